@@ -89,6 +89,70 @@ def renderInt (base : Nat) (f : IntFmt) (n : Int) : Txt :=
 
 def showInt (n : Int) : Txt := renderInt 10 {} n
 
+/-! ## integers under the printer variables `*print-base*` / `*print-radix*` (what ~A ~S princ prin1 print) -/
+
+/-- the radix prefix: `#b` `#o` `#x`, nothing for decimal (which gets a trailing dot), else `#<base>r` -/
+def radixPrefix (base : Nat) : Txt :=
+  if base = 2 then [35, 98] else if base = 8 then [35, 111] else if base = 16 then [35, 120]
+  else if base = 10 then [] else 35 :: ((digitsLE 10 base).map digitChar).reverse ++ [114]
+
+def radixSuffix (base : Nat) : Txt := if base = 10 then [46] else []
+
+/-- an integer as princ / prin1 print it when `*print-base*` = `base` and `*print-radix*` = `radix`:
+    the sign follows the prefix (`#x-ff`) -/
+def showIntEnv (base : Nat) (radix : Bool) (n : Int) : Txt :=
+  if radix then radixPrefix base ++ renderInt base {} n ++ radixSuffix base else renderInt base {} n
+
+/-! ## characters: UTF-8 -/
+
+/-- a Unicode scalar value (what a character object can hold) -/
+def isScalar (c : Nat) : Bool := c < 0x110000 && !(0xD800 ≤ c && c ≤ 0xDFFF)
+
+/-- the UTF-8 encoding of a code point (1–4 bytes) -/
+def utf8Enc (c : Nat) : Txt :=
+  if c < 0x80 then [c]
+  else if c < 0x800 then [0xC0 + c / 64, 0x80 + c % 64]
+  else if c < 0x10000 then [0xE0 + c / 4096, 0x80 + c / 64 % 64, 0x80 + c % 64]
+  else [0xF0 + c / 262144, 0x80 + c / 4096 % 64, 0x80 + c / 64 % 64, 0x80 + c % 64]
+
+def isCont (b : Nat) : Bool := 0x80 ≤ b && b < 0xC0
+
+/-- an independent strict UTF-8 decoder (one scalar value from the front of a byte string): rejects
+    stray continuation bytes, truncated and overlong forms, surrogates and values above U+10FFFF -/
+def utf8Dec : Txt → Option (Nat × Txt)
+  | [] => none
+  | b0 :: rest =>
+    if b0 < 0x80 then some (b0, rest)
+    else if b0 < 0xC0 then none
+    else if b0 < 0xE0 then
+      match rest with
+      | b1 :: r =>
+        let v := (b0 - 0xC0) * 64 + (b1 - 0x80)
+        if isCont b1 ∧ 0x80 ≤ v then some (v, r) else none
+      | _ => none
+    else if b0 < 0xF0 then
+      match rest with
+      | b1 :: b2 :: r =>
+        let v := (b0 - 0xE0) * 4096 + (b1 - 0x80) * 64 + (b2 - 0x80)
+        if isCont b1 ∧ isCont b2 ∧ 0x800 ≤ v ∧ isScalar v then some (v, r) else none
+      | _ => none
+    else if b0 < 0xF8 then
+      match rest with
+      | b1 :: b2 :: b3 :: r =>
+        let v := (b0 - 0xF0) * 262144 + (b1 - 0x80) * 4096 + (b2 - 0x80) * 64 + (b3 - 0x80)
+        if isCont b1 ∧ isCont b2 ∧ isCont b3 ∧ 0x10000 ≤ v ∧ isScalar v then some (v, r) else none
+      | _ => none
+    else none
+
+/-- decode a whole byte string into its characters (`none` = not well-formed UTF-8) -/
+def utf8DecAll : Nat → Txt → Option (List Nat)
+  | _, [] => some []
+  | 0, _ => none
+  | f + 1, bs =>
+    match utf8Dec bs with
+    | some (c, r) => (utf8DecAll f r).map (c :: ·)
+    | none => none
+
 /-! ## Roman numerals -/
 
 def tableAt (tbl : List (List Txt)) (row col : Nat) : Except Err Txt :=
@@ -133,6 +197,10 @@ structure EnglishTables where
   tens : List Txt         -- twenty … ninety
   ordOnes : List Txt      -- "", first … ninth
   ordTeens : List Txt     -- tenth … nineteenth
+  /-- the printer variables the directives read: `*print-base*` and `*print-radix*` (the context of one
+      format call: constant during the call, whatever the directives do) -/
+  printBase : Nat := 10
+  printRadix : Bool := false
 
 def genTables : EnglishTables :=
   { periods := Gen.FormatTables.cardinalTriples, ones := Gen.FormatTables.cardinalOne,
